@@ -143,6 +143,8 @@ impl fmt::Display for EscapeUnit {
             Self::CarriageReturn => f.write_str("\\r"),
             Self::Tab => f.write_str("\\t"),
             Self::VerticalTab => f.write_str("\\v"),
+            // The backslash needs to be doubled to be parsed as a control character.
+            Self::Control(0x1C) => f.write_str("\\c\\\\"),
             Self::Control(b) => write!(f, "\\c{}", (*b ^ 0x40) as char),
             Self::Octal(b) => write!(f, "\\{b:03o}"),
             Self::Hex(b) => write!(f, "\\x{b:02X}"),
@@ -582,6 +584,7 @@ mod tests {
         assert_eq!(VerticalTab.to_string(), r"\v");
         assert_eq!(Control(b'\x01').to_string(), r"\cA");
         assert_eq!(Control(b'\x7F').to_string(), r"\c?");
+        assert_eq!(Control(b'\x1C').to_string(), r"\c\\");
         assert_eq!(Octal(0o003).to_string(), r"\003");
         assert_eq!(Octal(0o123).to_string(), r"\123");
         assert_eq!(Hex(0x05).to_string(), r"\x05");
